@@ -17,8 +17,10 @@ RULE = ("noiseless sequences on emu-mps, 2-6 atoms (thorough: up to 8): ground-r
         "max_krylov_dim; optimize_qubit_ordering on/off with shuffled labels (so the internal permutation is non-trivial) "
         "; interaction_cutoff; user interaction matrix; initial MPS from amplitudes; oracle: the independent dense expm "
         "chain of C01; compared: occupation, correlation matrix, energy, second moment, variance (always), state, "
-        "fidelity, expectation (reordering off); when max_bond_dim binds only validity clauses (norm, ranges, bond <= "
-        "cap); non-trivial = non-zero interaction and drive, >=3 steps, final state differs from the initial one; "
+        "fidelity, expectation (reordering off); outside the regimes where two-site TDVP is exact, up to 5 (thorough 6) "
+        "atoms are compared with a dense numpy model of the documented TDVP step run in the same internal order "
+        "(tolerance + half the model's own distance to the exact evolution); when max_bond_dim binds only validity clauses "
+        "(norm, ranges, bond <= cap); non-trivial = non-zero interaction and drive, >=3 steps, final state differs from the initial one; "
         "distinct = case hash")
 ASSUMPTIONS = list(c01.ASSUMPTIONS) + [
     "XY dynamics are checked with an explicit user matrix whose C6 slice is zero (what pulser 1.9 intends with the extra "
@@ -35,7 +37,8 @@ def budget(tier):
 def _cases(draw, n_max=6):
     basis = draw(st.sampled_from(["rydberg", "rydberg", "rydberg", "XY"]))
     regime = draw(st.sampled_from(["exact", "exact", "exact", "exact", "free", "approx", "approx"]))
-    seq = draw(gen.seq_cases(n_min=2, n_max=4 if regime == "exact" else n_max, basis=basis, allow_mod=True, max_ops=3, dur_hi=80,
+    n_hi = 4 if regime == "exact" else (draw(st.sampled_from([5, 5, n_max])) if regime == "approx" else n_max)
+    seq = draw(gen.seq_cases(n_min=2 if regime != "approx" else 3, n_max=n_hi, basis=basis, allow_mod=True, max_ops=3, dur_hi=80,
                              dmin=5.5, dmax=11.0))
     n = len(seq["reg"]["ids"])
     # force a healthy share of "permutation != identity and per-atom drive differs"
@@ -51,7 +54,7 @@ def _cases(draw, n_max=6):
          "reorder": draw(st.booleans()), "obs_set": draw(st.sampled_from(["permutable", "permutable", "all"])),
          "max_bond": draw(st.sampled_from([None, None, None, 1, 2, 3])),
          "max_krylov": draw(st.sampled_from([100, 100, 30])),
-         "regime": regime, "seed": draw(st.integers(0, 2**20))}
+         "regime": regime, "tier": "quick" if n_max <= 6 else "thorough", "seed": draw(st.integers(0, 2**20))}
     if regime == "exact":
         # saturated initial state: every amplitude non-zero, so every bond starts at its maximal dimension
         c["init"] = "saturated"
@@ -229,7 +232,23 @@ def check_case(case) -> Result:
     # Elsewhere the documented projection / sweep errors (docs/emu_mps/advanced/errors.md, A and B) are not
     # controlled by `precision`, so only the validity clauses are applied.
     exact = (n == 2 or (n <= 4 and case["init"] == "saturated") or float(np.abs(info["U"]).max()) == 0.0) and not cap_binds
-    r.label("regime:" + ("exact" if exact else "validity_only"))
+    # Outside the exact regimes the emulator is compared with a dense reference *model* of the documented two-site TDVP
+    # step (pbt/oracles/tdvp_model.py: numpy, exact exponentials of the projected Hamiltonians, SVD truncation with the
+    # same rule), run in the same internal order.  Truncation decisions taken at the threshold may differ between the
+    # two, which moves them apart by a fraction of TDVP's own error: half the model's distance to the exact evolution
+    # is added to the tolerance.
+    model_ref = None
+    n_model = 5 if case.get("tier", "quick") == "quick" else 6
+    if not exact and not cap_binds and len(refs) == 1 and n <= n_model and seqc["basis"] == "rydberg":
+        import copy
+
+        from pbt.oracles import tdvp_model
+
+        perm = p.tolist() if perm_nontrivial else None
+        mstates, mbonds = tdvp_model.run(ref0, psi0=psi0, precision=prec, max_bond=cap if cap is not None else 1024, perm=perm)
+        model_ref = copy.copy(ref0)
+        model_ref.states = mstates
+    r.label("regime:" + ("exact" if exact else ("tdvp_model" if model_ref is not None else "validity_only")))
 
     def best_err(t_rel, v, ref_value, scale_of):
         best = None
@@ -255,6 +274,18 @@ def check_case(case) -> Result:
                     r.fail("out_of_range:" + tag, f"t={t_rel}: {vv.tolist()}")
                     return
             if not exact:
+                if model_ref is not None:
+                    k = ref0.index_of(float(t_rel) * info["T"], tol=1e-6 * max(1.0, info["T"]))
+                    sc = scale_of(ref0, k) if scale_of else 1.0
+                    wm, we = ref_value(model_ref, k), ref_value(ref0, k)
+                    err = float(np.max(np.abs(e2e.to_np(v) - wm))) / max(sc, 1e-300)
+                    allowed = factor * tol + 0.5 * float(np.max(np.abs(np.asarray(wm) - np.asarray(we)))) / max(sc, 1e-300)
+                    if not err <= allowed:
+                        kind = "differs_from_tdvp_model:" + tag + (":reordered_per_atom_drive" if (perm_nontrivial and per_atom) else "")
+                        r.fail(kind, f"{tag} t={float(t_rel):.6g}: |emulator - dense TDVP model| = {err:.3e} > {allowed:.3e} (model vs exact evolution "
+                                     f"{float(np.max(np.abs(np.asarray(wm) - np.asarray(we)))) / max(sc, 1e-300):.3e}; precision={prec:g}, steps={nsteps}, n={n}, "
+                                     f"reorder={reorder_effective}, perm_nontrivial={perm_nontrivial})")
+                        return
                 continue
             try:
                 best = best_err(t_rel, v, ref_value, scale_of)
